@@ -19,7 +19,7 @@ Import ListNotations.
 Local Open Scope Z_scope.
 
 Inductive binop : Type :=
-| Mul | Div | Mod | Add | Sub | Shl | Shr | Lt | Le | Gt | Ge | Eq | Ne
+| Mul | Div | Mod | Add | Sub | Shl | Shr | OLt | OLe | OGt | OGe | OEq | ONe
 | BAnd | BXor | BOr | LAnd | LOr.
 
 Inductive unop : Type := Neg | LNot | BNot.
@@ -39,8 +39,8 @@ Definition bprec (o : binop) : nat :=
   | Mul | Div | Mod => 11
   | Add | Sub => 10
   | Shl | Shr => 9
-  | Lt | Le | Gt | Ge => 8
-  | Eq | Ne => 7
+  | OLt | OLe | OGt | OGe => 8
+  | OEq | ONe => 7
   | BAnd => 6
   | BXor => 5
   | BOr => 4
@@ -181,12 +181,12 @@ Definition bin_sem (o : binop) (x y : Z) : Z :=
   | Sub => x - y
   | Shl => Z.shiftl x y
   | Shr => Z.shiftr x y
-  | Lt => b2z (x <? y)
-  | Le => b2z (x <=? y)
-  | Gt => b2z (y <? x)
-  | Ge => b2z (y <=? x)
-  | Eq => b2z (x =? y)
-  | Ne => b2z (negb (x =? y))
+  | OLt => b2z (x <? y)
+  | OLe => b2z (x <=? y)
+  | OGt => b2z (y <? x)
+  | OGe => b2z (y <=? x)
+  | OEq => b2z (x =? y)
+  | ONe => b2z (negb (x =? y))
   | BAnd => Z.land x y
   | BXor => Z.lxor x y
   | BOr => Z.lor x y
